@@ -28,6 +28,13 @@ Section WithFacts.
     {| x_cfg := x_cfg x; x_schema := x_schema x; x_doc := m; x_dp := x_dp x; x_sp := x_sp x;
        x_update := x_update x |}.
 
+  (* unknown_rules = self._resolve_rules_set(self.allow_unknown): the rules set for unknown fields, if any *)
+  Definition unknown_rules (x : ctx) : option dict :=
+    match resolve_rules_set (x_cfg x) (c_allow_unknown (x_cfg x)) with
+    | Some (VDict d) => Some d
+    | _ => None
+    end.
+
   Definition vs_of (ns : nstate) : vstate := {| s_errs := n_errs ns; s_unreq := [] |}.
 
   Definition nfile (x : ctx) (ns : nstate) (field : key) (defname : string) (info : list value) : res nstate :=
@@ -133,10 +140,10 @@ Section WithFacts.
                    else Ok ns);
         rename_handler_step x ns1 rs field
     | None =>
-        match au with
-        | VDict d => if assoc_mem (KStr "rename_handler") d
-                     then rename_handler_step x ns (Some au) field else Ok ns
-        | _ => Ok ns
+        match unknown_rules x with
+        | Some d => if assoc_mem (KStr "rename_handler") d
+                    then rename_handler_step x ns (Some (VDict d)) field else Ok ns
+        | None => Ok ns
         end
     end.
 
@@ -317,8 +324,8 @@ Section WithFacts.
                 end
               else if assoc_mem f rsch then Ok ns       (* elif field not in schema and ... *)
               else
-                match au with
-                | VDict d =>
+                match unknown_rules x with
+                | Some d =>
                     match assoc_get (KStr "coerce") d with
                     | Some c =>
                         let nl := match assoc_get (KStr "nullable") d with Some n => truthy n | None => false end in
@@ -327,7 +334,7 @@ Section WithFacts.
                         Ok {| n_map := assoc_set f v' (n_map ns1); n_errs := n_errs ns1 |}
                     | None => Ok ns
                     end
-                | _ => Ok ns
+                | None => Ok ns
                 end
           end;
         coerce_fields x ns' rsch fs
@@ -385,9 +392,9 @@ Section WithFacts.
       let au := c_allow_unknown (x_cfg x) in
       (* rules = schema.get(field, {}); if not rules and isinstance(self.allow_unknown, Mapping): rules = allow_unknown *)
       do rules <- match rs with
-                  | Some (VDict r) => Ok (match r, au with [], VDict a => a | _, _ => r end)
+                  | Some (VDict r) => Ok (match r, unknown_rules x with [], Some a => a | _, _ => r end)
                   | Some _ => Raise AttributeError "__normalize_mapping_per_schema"
-                  | None => Ok (match au with VDict a => a | _ => [] end)
+                  | None => Ok (match unknown_rules x with Some a => a | None => [] end)
                   end;
       let getd k dflt := match assoc_get (KStr k) rules with Some v => v | None => dflt end in
       let sch := getd "schema" (VDict []) in
@@ -465,7 +472,7 @@ Section WithFacts.
                                     end
                                else Ok ns1);
                     if has "allow_unknown" || has "purge_unknown" || has "schema"
-                       || is_mapping (c_allow_unknown (x_cfg x))
+                       || (match unknown_rules x with Some _ => true | None => false end)
                     then match assoc_get f (n_map ns2) with
                          | Some (VDict d2) =>
                              norm_mapping_schema x ns2 f d2
